@@ -68,31 +68,46 @@ def computeStep : Option Int → Int
 
 /-! ### binary32 emulation of `ceil(float(range) / step)` -/
 
-/-- nearest-even binary32 rounding of the positive rational `num/den` (normal range), as `m * 2^e` with
-    `2^23 ≤ m ≤ 2^24`. -/
-def f32Round (num den : Nat) : Nat × Int :=
-  if num = 0 then (0, 0) else
-  let e0 : Int := (Nat.log2 num : Int) - (Nat.log2 den : Int) - 23
-  let scale : Int → Nat × Nat := fun e => if e ≥ 0 then (num, den * 2 ^ e.toNat) else (num * 2 ^ (-e).toNat, den)
-  let pick : Int → Nat := fun e => (scale e).1 / (scale e).2
-  let e : Int := if pick e0 ≥ 16777216 then e0 + 1 else if pick e0 < 8388608 then e0 - 1 else e0
-  let n' := (scale e).1
-  let d' := (scale e).2
-  let m := n' / d'
-  let r := n' % d'
-  let m' := if 2 * r > d' ∨ (2 * r = d' ∧ m % 2 = 1) then m + 1 else m
-  (m', e)
+/-- round half to even: `m + r/d` with `0 ≤ r < d` -/
+def rhe (m r d : Nat) : Nat := if 2 * r > d ∨ (2 * r = d ∧ m % 2 = 1) then m + 1 else m
 
-/-- `(float)a` for a non-negative integer `a`, as an exact integer value -/
+/-- `(float)a` for a non-negative integer `a < 2^64`, as an exact integer value -/
 def f32OfNat (a : Nat) : Nat :=
   if a < 16777216 then a else
-  let (m, e) := f32Round a 1
-  m * 2 ^ e.toNat
+  let e := a.log2 - 23
+  rhe (a / 2 ^ e) (a % 2 ^ e) (2 ^ e) * 2 ^ e
 
-/-- `⌊m·2^e⌋` and `⌈m·2^e⌉` -/
-def floorME (m : Nat) (e : Int) : Nat := if e ≥ 0 then m * 2 ^ e.toNat else m / 2 ^ (-e).toNat
-def ceilME (m : Nat) (e : Int) : Nat :=
-  if e ≥ 0 then m * 2 ^ e.toNat else (m + 2 ^ (-e).toNat - 1) / 2 ^ (-e).toNat
+/-- least `t` (searched upwards from `t`) with `2^23 ≤ ⌊x·2^t / k⌋` -/
+def findT (x k : Nat) : Nat → Nat → Nat
+  | 0, t => t
+  | fuel + 1, t => if x * 2 ^ t / k ≥ 8388608 then t else findT x k fuel (t + 1)
+
+/-- binary32 quotient `fl(x / k)` for `0 < x`, `x / k < 2^24`: the pair `(m, t)` stands for `m / 2^t` -/
+def f32DivSmall (x k : Nat) : Nat × Nat :=
+  let t := findT x k 64 0
+  (rhe (x * 2 ^ t / k) (x * 2 ^ t % k) k, t)
+
+/-- binary32 quotient `fl(x / k)` for `x / k ≥ 2^24` (an integer) -/
+def f32DivBig (x k : Nat) : Nat :=
+  let e := (x / k).log2 - 23
+  let d := k * 2 ^ e
+  rhe (x / d) (x % d) d * 2 ^ e
+
+/-- `⌈fl(x / k)⌉` -/
+def f32DivCeil (x k : Nat) : Nat :=
+  if x = 0 then 0
+  else if x / k < 16777216 then
+    let q := f32DivSmall x k
+    (q.1 + 2 ^ q.2 - 1) / 2 ^ q.2
+  else f32DivBig x k
+
+/-- `⌊fl(x / k)⌋` -/
+def f32DivFloor (x k : Nat) : Nat :=
+  if x = 0 then 0
+  else if x / k < 16777216 then
+    let q := f32DivSmall x k
+    q.1 / 2 ^ q.2
+  else f32DivBig x k
 
 /-- `static_cast<size_type>(constexpr_ceil<int>(static_cast<float>(s) / step))` for a range `s` (unsigned or int value)
     and `step = compute_step(..)`.  `none`: division by zero or float → int conversion out of range (UB), or a step that
@@ -100,12 +115,10 @@ def ceilME (m : Nat) (e : Int) : Nat :=
 def lengthOf (s : Int) (k : Int) : Option Int :=
   if k ≤ 0 ∨ k ≥ 16777216 then none else
   if s ≥ 0 then
-    let q := f32Round (f32OfNat s.toNat) k.toNat
-    let c := ceilME q.1 q.2
+    let c := f32DivCeil (f32OfNat s.toNat) k.toNat
     if c < 2147483648 then some (c : Int) else none
   else
-    let q := f32Round (f32OfNat (-s).toNat) k.toNat
-    let c := floorME q.1 q.2          -- (int) truncates towards zero; `f > i` is false for negative f
+    let c := f32DivFloor (f32OfNat (-s).toNat) k.toNat   -- (int) truncates towards zero; `f > i` is false for negative f
     if c ≤ 2147483648 then some (u64 (-(c : Int))) else none
 
 /-- extent of the sliced axis as `shape_slice` / `shape_dynamic_slice` compute it -/
